@@ -49,7 +49,9 @@ var props = map[string]propSpec{
 	"C14": {"C14", []string{"gendet"}, "", nil},
 	"C15": {"C15", []string{"gensort"}, "", nil},
 	"C16": {"C16", []string{"genconfig"}, "", nil},
+	"C17": {"C17", []string{"custom", "custombad", "custombadto"}, "", nil},
 	"C18": {"C18", []string{"genwhole"}, "", nil},
+	"C19": {"C19", []string{"boundary"}, "", nil},
 	"C20": {"C20", []string{"empty"}, "", nil},
 }
 
@@ -198,6 +200,7 @@ func verdict(p propSpec, tier string, seed int64, reps []*FamilyReport, known kn
 	var states, gen int64
 	drift := 0
 	altRuns := 0
+	randomBehs := 0
 	var samples []json.RawMessage
 	modelViol := map[string]int{}
 	unexplored := []string{}
@@ -212,17 +215,34 @@ func verdict(p propSpec, tier string, seed int64, reps []*FamilyReport, known kn
 		gen += r.MCGenerated
 		drift += len(r.Drift)
 		altRuns += r.AltRuns
+		randomBehs += r.RandomBehaviours
 		samples = append(samples, r.Samples...)
 		for k, n := range r.ModelViol {
 			if strings.HasPrefix(k, prefix) {
 				modelViol[k] += n
 			}
 		}
-		for k := range r.CompileFail {
+		// converters that do not exist cannot satisfy any property about them: a generated package that does
+		// not compile, or a run without output, is reported under the property being checked
+		for k, out := range r.CompileFail {
 			unexplored = append(unexplored, r.Family+":"+k+" (generated code does not compile)")
+			v := ViolInst{Clause: p.ID + ".generated_code_compiles", Path: k, Sig: "compile " + firstError(out), Shape: k, Behaviour: k, Ev: "build"}
+			key := v.Clause + "|" + v.Sig
+			if _, ok := groups[key]; !ok {
+				groups[key] = &group{first: v, bun: mustJSON(map[string]interface{}{"family": r.Family, "tier": tier, "variant": k, "compiler_output": out})}
+				order = append(order, key)
+			}
+			groups[key].n++
 		}
-		for k := range r.GenFail {
+		for k, out := range r.GenFail {
 			unexplored = append(unexplored, r.Family+":"+k+" (no output)")
+			v := ViolInst{Clause: p.ID + ".generated_code_compiles", Path: k, Sig: "no output", Shape: k, Behaviour: k, Ev: "run"}
+			key := v.Clause + "|" + v.Sig
+			if _, ok := groups[key]; !ok {
+				groups[key] = &group{first: v, bun: mustJSON(map[string]interface{}{"family": r.Family, "tier": tier, "variant": k, "plugin_output": out})}
+				order = append(order, key)
+			}
+			groups[key].n++
 		}
 		for _, v := range r.Violations {
 			if !strings.HasPrefix(v.Clause, prefix) {
@@ -305,26 +325,36 @@ func verdict(p propSpec, tier string, seed int64, reps []*FamilyReport, known kn
 			states: states, transitions: gen, traces: behs, evals: evals, distinct: distinct, samples: samples, wall: wall,
 			violations: nviol, extra: map[string]interface{}{
 				"trace_lines_accepted": lines, "drift": drift, "known_findings_hit": knownHits,
-				"model_level_contract_failures": modelViol, "unexplored": unexplored, "families": p.Families, "from_cache": cached, "alternative_renderings_run": altRuns,
+				"model_level_contract_failures": modelViol, "unexplored": unexplored, "families": p.Families, "from_cache": cached, "alternative_renderings_run": altRuns, "seeded_random_behaviours": randomBehs,
 			}})
 	}
 	return exit
 }
 
 type evidence struct {
-	states, transitions int64
+	states, transitions     int64
 	traces, evals, distinct int
-	samples []json.RawMessage
-	wall float64
-	violations int
-	extra map[string]interface{}
+	samples                 []json.RawMessage
+	wall                    float64
+	violations              int
+	extra                   map[string]interface{}
+}
+
+var reErrLine = regexp.MustCompile(`(?m)^\S+\.go:\d+:\d+: (.*)$`)
+
+// firstError: the first compiler message without file position (stable across shapes)
+func firstError(out string) string {
+	if m := reErrLine.FindStringSubmatch(out); m != nil {
+		return m[1]
+	}
+	return "error"
 }
 
 func writeEvidence(p propSpec, tier string, seed int64, e evidence) {
 	cov := map[string]interface{}{
 		"states": e.states, "transitions": e.transitions, "traces_validated_against_impl": e.traces,
 		"evaluations": e.evals, "distinct_nontrivial": e.distinct,
-		"rule": "TLC enumerates every (shape, value, history) of the family's script within the stated bounds; each behaviour is replayed in the real generated code and every recorded state is judged by Trace.tla. evaluations = trace lines on which the property's antecedent held; distinct_nontrivial = distinct behaviours (shape + argument values) among them.",
+		"rule":    "TLC enumerates every (shape, value, history) of the family's script within the stated bounds; each behaviour is replayed in the real generated code and every recorded state is judged by Trace.tla. evaluations = trace lines on which the property's antecedent held; distinct_nontrivial = distinct behaviours (shape + argument values) among them.",
 		"samples": e.samples, "exhaustive": true,
 	}
 	for k, v := range e.extra {
